@@ -17,7 +17,7 @@
 //                        window in which closedChan of this end closed, window in which inputErr closed
 //       facts for Write: stall clo chi olo ohi creq  stall=1 if the send queue cannot move (peer stopped reading),
 //                        closedChan window, outputErr window, creq = time closeRequested was set (-1 never)
-//       facts for Close: kind-specific: first stall   (first=1 if this is the first Close of that object)
+//       facts for Close: first stall rearm  (first=1: first Close of that object; rearm=1: goroutine dump shows Mux.Close waiting for a server event loop that re-armed its read timeout)
 //   X id                                       end of scenario                                                     impl "-"
 // The model runner replays D/I/T through Deadline.v (effective deadline of every call under the code's
 // reset-on-return rule) and classifies every T line with Lifecycle.v's exit table; it prints the observed class
@@ -27,6 +27,7 @@ package main
 
 import (
 	"context"
+	"encoding/json"
 	"errors"
 	"fmt"
 	"io"
@@ -42,6 +43,11 @@ import (
 	"time"
 	"unsafe"
 
+	apiclient "github.com/enfein/mieru/v3/apis/client"
+	apiserver "github.com/enfein/mieru/v3/apis/server"
+	pb "github.com/enfein/mieru/v3/pkg/appctl/appctlpb"
+	"github.com/enfein/mieru/v3/pkg/protocol"
+	"google.golang.org/protobuf/proto"
 	"github.com/enfein/mieru/v3/pkg/stderror"
 	"verifharness/rig"
 	"verifharness/simnet"
@@ -66,6 +72,7 @@ type Scenario struct {
 	Kind      string `json:"kind"`
 	NSess     int    `json:"nsess"`
 	Cap       int    `json:"cap"`        // TCP pipe capacity (0 = unbounded)
+	Apis      bool   `json:"apis"`       // both ends through apis/client and apis/server (Start / Stop); CMux / SMux then mean Stop
 	Stall     bool   `json:"stall"`      // server app never reads & the client floods first (back-pressure)
 	FloodDLms int    `json:"flood_deadline_ms"` // write deadline set before every Write of a Flood op (0 = none)
 	HorizonMs int    `json:"horizon_ms"` // when still-blocked calls are declared BLOCKED
@@ -83,6 +90,7 @@ type rec struct {
 	done   atomic.Bool
 	abs    int64 // for deadline setters: absolute us (0 = clear)
 	curStart atomic.Int64 // Flood: start of the Write in progress
+	dump   string // goroutine dump taken 3 s after a Close started (if it was still running)
 }
 
 var evSeq atomic.Int64
@@ -106,6 +114,19 @@ func classify(n int, err error) string {
 	return "ERR"
 }
 
+// fixedListen makes the apis server, which binds the wildcard address, listen on the simulated server address.
+type fixedListen struct{ n *simnet.Net }
+
+func (f fixedListen) Listen(ctx context.Context, network, address string) (net.Listener, error) {
+	_, port, _ := net.SplitHostPort(address)
+	return f.n.Listen(ctx, network, net.JoinHostPort("192.0.2.1", port))
+}
+
+func (f fixedListen) ListenPacket(ctx context.Context, network, address string) (net.PacketConn, error) {
+	_, port, _ := net.SplitHostPort(address)
+	return f.n.ListenPacketAt(net.JoinHostPort("192.0.2.1", port))
+}
+
 // recDialer hands out simnet TCP connections and remembers them (for Reset).
 type recDialer struct {
 	n     *simnet.Net
@@ -127,11 +148,14 @@ func (d *recDialer) DialContext(ctx context.Context, network, address string) (n
 type world struct {
 	sc      *Scenario
 	r       *rig.Rig
+	closeC  func() error
+	closeS  func() error
 	dial    *recDialer
 	start   time.Time
 	cs, ss  []net.Conn
 	recs    []*rec
 	holed   atomic.Bool
+	dumpMu  sync.Mutex
 	over    atomic.Bool
 	holeAt  int64
 	resetAt int64
@@ -182,6 +206,82 @@ func shortFn(s string) string {
 	return strings.Trim(sigClean.ReplaceAllString(s, "-"), "-")
 }
 
+
+// watched runs f; if f has not returned after 3 s (virtual) it records a dump of all goroutines.
+func watched(f func()) (durUs int64, dump string) {
+	done := make(chan struct{})
+	got := make(chan string, 1)
+	go func() {
+		select {
+		case <-done:
+			got <- ""
+		case <-time.After(3 * time.Second):
+			buf := make([]byte, 8<<20)
+			got <- string(buf[:runtime.Stack(buf, true)])
+		}
+	}()
+	a := time.Now()
+	f()
+	durUs = time.Since(a).Microseconds()
+	close(done)
+	dump = <-got
+	return
+}
+
+var readTimeoutUs = protocol.VerifC15ReadOneSegmentTimeoutNs() / 1000
+
+// blockedCloseCause names where a Close that took more than 3 s was waiting, from the goroutine dump taken 3 s
+// after it started and from how long it took in the end (durUs < 0: it never returned).  Only the two causes that
+// are known findings get their own name; everything else is named after the innermost mieru frame of the closer.
+func blockedCloseCause(kind string, dump string, durUs int64) (cause string, rearm bool) {
+	gs := strings.Split(dump, "\n\n")
+	has := func(g string, subs ...string) bool {
+		for _, x := range subs {
+			if !strings.Contains(g, x) {
+				return false
+			}
+		}
+		return true
+	}
+	closerFrame := "unknown"
+	switch kind {
+	case "SMux", "CMux":
+		muxWaitsLoops, loopInRead := false, false
+		for _, g := range gs {
+			if has(g, "protocol.(*Mux).Close(") {
+				closerFrame = shortFn(mieruFrame.FindString(g))
+				if has(g, "sync.(*WaitGroup).Wait") && !has(g, "baseUnderlay).Close") {
+					muxWaitsLoops = true
+				}
+			}
+			if has(g, "RunEventLoop", "readOneSegment", "startServerUnderlayEventLoop") && (has(g, "simnet.(*pipe).read") || has(g, "simnet.(*PacketConn).ReadFrom")) {
+				loopInRead = true
+			}
+		}
+		// the re-armed read timeout bounds the wait: it cannot last longer than one full timeout
+		if kind == "SMux" && muxWaitsLoops && loopInRead && (durUs < 0 || durUs <= readTimeoutUs+2_000_000) {
+			return "server-mux-eventloop-rearmed-read-timeout", true
+		}
+	default:
+		closerLock, outInWrite := false, false
+		for _, g := range gs {
+			if has(g, "(*Session).closeWithError") && !has(g, "runOutputOnceStream") {
+				closerFrame = shortFn(mieruFrame.FindString(g))
+				if has(g, "sync.(*Mutex).Lock") {
+					closerLock = true
+				}
+			}
+			if has(g, "runOutputOnceStream", "writeOneSegment", "simnet.(*pipe).write") {
+				outInWrite = true
+			}
+		}
+		if closerLock && outInWrite {
+			return "session-olock-behind-stalled-conn-write", false
+		}
+	}
+	return strings.ToLower(kind) + "-at-" + closerFrame, false
+}
+
 const tolUs = 60_000 // tolerance for "at the same time" (scheduling, 1 ms polls, simulated latency)
 
 // ---------------------------------------------------------------------------------------------- running
@@ -197,12 +297,20 @@ func (rn *runner) fail(sig, what string, sc *Scenario, extra map[string]interfac
 	for k, v := range extra {
 		c[k] = v
 	}
-	rn.r.Fail(sig, what, c)
 	rn.r.Count("fail:" + sig)
+	// vh keeps at most 200 failures: record only the first few per signature so that a new signature
+	// cannot be crowded out by repetitions of known ones (the full count is in the distribution)
+	if rn.r.Rep.Distribution["fail:"+sig] <= 4 {
+		rn.r.Fail(sig, what, c)
+	}
 }
 
 func (rn *runner) run(sc *Scenario) {
 	r := rn.r
+	if pf := os.Getenv("C15_PROGRESS"); pf != "" {
+		b, _ := json.Marshal(sc)
+		os.WriteFile(pf, b, 0o644)
+	}
 	r.Count("kind:" + sc.Kind)
 	r.Count("transport:" + sc.Transport)
 	nw := simnet.New()
@@ -223,24 +331,86 @@ func (rn *runner) run(sc *Scenario) {
 		return []simnet.Delivery{{}}
 	}
 	user := fmt.Sprintf("u%d", sc.ID)
-	rg, err := rig.Start(rig.Opts{Transport: sc.Transport, Net: nw, Users: map[string]string{user: "pw-" + user}, ClientUser: user, ClientPass: "pw-" + user, Multiplex: 1})
-	if err != nil {
-		panic(err)
-	}
-	w.r = rg
 	w.dial = &recDialer{n: nw}
-	rg.Client.SetDialer(w.dial)
+	var dialSess func() (net.Conn, error)
+	var acceptSess func() (net.Conn, error)
+	if sc.Apis {
+		proto_ := pb.TransportProtocol_TCP
+		if sc.Transport == "udp" {
+			proto_ = pb.TransportProtocol_UDP
+		}
+		pbind := []*pb.PortBinding{{Port: proto.Int32(8964), Protocol: proto_.Enum()}}
+		srv := apiserver.NewServer()
+		if err := srv.Store(&apiserver.ServerConfig{
+			Config:                &pb.ServerConfig{PortBindings: pbind, Users: []*pb.User{{Name: proto.String(user), Password: proto.String("pw-" + user)}}},
+			StreamListenerFactory: fixedListen{nw}, PacketListenerFactory: fixedListen{nw}}); err != nil {
+			panic(err)
+		}
+		if err := srv.Start(); err != nil {
+			panic(err)
+		}
+		cli := apiclient.NewClient()
+		if err := cli.Store(&apiclient.ClientConfig{
+			Profile: &pb.ClientProfile{ProfileName: proto.String("p"), User: &pb.User{Name: proto.String(user), Password: proto.String("pw-" + user)},
+				Servers:       []*pb.ServerEndpoint{{IpAddress: proto.String("192.0.2.1"), PortBindings: pbind}},
+				HandshakeMode: pb.HandshakeMode_HANDSHAKE_NO_WAIT.Enum()},
+			Dialer: w.dial, PacketDialer: simnet.PacketDialer{N: nw}}); err != nil {
+			panic(err)
+		}
+		if err := cli.Start(); err != nil {
+			panic(err)
+		}
+		w.closeC, w.closeS = cli.Stop, srv.Stop
+		dialSess = func() (net.Conn, error) {
+			ctx, cancel := context.WithTimeout(context.Background(), 10*time.Second)
+			defer cancel()
+			return cli.DialContext(ctx, &net.TCPAddr{IP: net.ParseIP("198.51.100.7"), Port: 80})
+		}
+		acceptSess = func() (net.Conn, error) {
+			type res struct {
+				c   net.Conn
+				err error
+			}
+			ch := make(chan res, 1)
+			go func() { c, _, err := srv.Accept(); ch <- res{c, err} }()
+			select {
+			case r := <-ch:
+				return r.c, r.err
+			case <-time.After(15 * time.Second):
+				return nil, fmt.Errorf("apis Accept: nothing within 15 s")
+			}
+		}
+	} else {
+		rg, err := rig.Start(rig.Opts{Transport: sc.Transport, Net: nw, Users: map[string]string{user: "pw-" + user}, ClientUser: user, ClientPass: "pw-" + user, Multiplex: 1})
+		if err != nil {
+			panic(err)
+		}
+		w.r = rg
+		rg.Client.SetDialer(w.dial)
+		w.closeC, w.closeS = rg.Client.Close, rg.Server.Close
+		dialSess = rg.Dial
+		acceptSess = func() (net.Conn, error) { return rg.Accept(5 * time.Second) }
+	}
 	for i := 0; i < sc.NSess; i++ {
-		c, err := rg.Dial()
+		c, err := dialSess()
 		if err != nil {
 			panic(fmt.Sprintf("dial: %v", err))
 		}
-		if _, err := c.Write([]byte(fmt.Sprintf("hello-%d", i))); err != nil {
-			panic(fmt.Sprintf("greeting: %v", err))
-		}
-		s, err := rg.Accept(5 * time.Second)
+		greeted := make(chan error, 1)
+		go func() { _, err := c.Write([]byte(fmt.Sprintf("hello-%d", i))); greeted <- err }()
+		s, err := acceptSess()
 		if err != nil {
 			panic(fmt.Sprintf("accept: %v", err))
+		}
+		if sc.Apis {
+			// the application behind apis/server answers the socks5 request (success, 0.0.0.0:0); the client's
+			// first Write (early connection) waits for this answer
+			if _, err := s.Write([]byte{5, 0, 0, 1, 0, 0, 0, 0, 0, 0}); err != nil {
+				panic(fmt.Sprintf("socks5 response: %v", err))
+			}
+		}
+		if err := <-greeted; err != nil {
+			panic(fmt.Sprintf("greeting: %v", err))
 		}
 		buf := make([]byte, 64)
 		if _, err := s.Read(buf); err != nil {
@@ -322,15 +492,10 @@ func (rn *runner) run(sc *Scenario) {
 	td0 := time.Now()
 	tdDone := make(chan struct{})
 	var tdC, tdS int64
+	var dumpC, dumpS string
 	go func() {
-		a := time.Now()
-		rg.Client.Close()
-		rg.Client.Close()
-		tdC = time.Since(a).Microseconds()
-		a = time.Now()
-		rg.Server.Close()
-		rg.Server.Close()
-		tdS = time.Since(a).Microseconds()
+		tdC, dumpC = watched(func() { w.closeC(); w.closeC() })
+		tdS, dumpS = watched(func() { w.closeS(); w.closeS() })
 		close(tdDone)
 	}()
 	tdBlocked := false
@@ -372,20 +537,16 @@ func (rn *runner) run(sc *Scenario) {
 	})
 
 	// ------------------------------------------------------------------ oracle (property text)
-	if tdBlocked || tdUs > 3_000_000 {
-		which := "client"
-		if tdS > tdC {
-			which = "server"
+	if tdBlocked || tdUs > 3_000_000+2_000_000*int64(sc.NSess) {
+		kind, dump, dur := "CMux", dumpC, tdC
+		if tdS > tdC || (tdBlocked && tdC > 0 && tdC <= 3_000_000) {
+			kind, dump, dur = "SMux", dumpS, tdS
 		}
-		ctx := "idle"
-		if sc.Stall {
-			ctx = "peer-not-reading"
-		} else if w.holeAt >= 0 {
-			ctx = "udp-black-hole"
-		} else if w.resetAt >= 0 {
-			ctx = "tcp-reset"
+		if tdBlocked {
+			dur = -1
 		}
-		rn.fail(fmt.Sprintf("close-blocked-%s-mux-teardown-%s-%s", which, sc.Transport, ctx), fmt.Sprintf("closing both muxes at the end of the scenario took %d ms (client mux %d ms, server mux %d ms, blocked=%v)", tdUs/1000, tdC/1000, tdS/1000, tdBlocked), sc, nil)
+		cause, _ := blockedCloseCause(kind, dump, dur)
+		rn.fail(fmt.Sprintf("close-blocked-%s-%s", cause, sc.Transport), fmt.Sprintf("closing both muxes at the end of the scenario took %d ms (client mux %d ms, server mux %d ms, never returned=%v); where: %s", tdUs/1000, tdC/1000, tdS/1000, tdBlocked, cause), sc, nil)
 	}
 	if len(stuck) > 0 {
 		rn.fail("call-not-unblocked-by-mux-close-"+strings.ToLower(w.firstStuckKind()), fmt.Sprintf("calls still blocked 5 s after both muxes were closed: %v", stuck), sc, nil)
@@ -484,14 +645,31 @@ func (w *world) exec(rc *rec) {
 		w.conn(rc).SetDeadline(t)
 		rc.abs = abs
 		fin("OK", 0)
-	case "Close":
-		err := w.conn(rc).Close()
-		fin(classify(0, err), 0)
-	case "CMux":
-		err := w.r.Client.Close()
-		fin(classify(0, err), 0)
-	case "SMux":
-		err := w.r.Server.Close()
+	case "Close", "CMux", "SMux":
+		var err error
+		stop := make(chan struct{})
+		dumped := make(chan struct{})
+		go func() {
+			defer close(dumped)
+			select {
+			case <-stop:
+			case <-time.After(3 * time.Second):
+				buf := make([]byte, 8<<20)
+				w.dumpMu.Lock()
+				rc.dump = string(buf[:runtime.Stack(buf, true)])
+				w.dumpMu.Unlock()
+			}
+		}()
+		switch op.Kind {
+		case "Close":
+			err = w.conn(rc).Close()
+		case "CMux":
+			err = w.closeC()
+		default:
+			err = w.closeS()
+		}
+		close(stop)
+		<-dumped
 		fin(classify(0, err), 0)
 	case "Reset":
 		w.resetAt = w.now()
@@ -516,7 +694,10 @@ type window struct{ lo, hi int64 } // -1 = never / not within the horizon
 
 // closure causes at (end, sess): returns the window in which closedChan closed.
 // lo = earliest time a cause started, hi = time by which it is certainly closed (cause completed + propagation).
-func (w *world) closedWindow(end string, sess int, get func(i int) (bool, int64, string)) (window, window) {
+// spec = true: what the property asks for (a completed close at the peer reaches this end over a live network);
+// spec = false: what the code does (UDP server Mux.Close closes the socket before the close requests leave; a close
+// request sent to an end whose own mux is closing may find its socket gone).
+func (w *world) closedWindow(end string, sess int, get func(i int) (bool, int64, string), spec bool) (window, window) {
 	cl := window{-1, -1}
 	er := window{-1, -1}
 	add := func(win *window, lo, hi int64) {
@@ -545,13 +726,21 @@ func (w *world) closedWindow(end string, sess int, get func(i int) (bool, int64,
 			if rc.op.End == end {
 				if done {
 					hi = t1
+					if t1-rc.t0 < 900 {
+						// returned at once: possibly the loser of the closeRequested CAS (a no-op); the winner
+						// (another Close, or the input loop handling the peer's close request) then completes
+						// within its 1 s poll
+						hi = t1 + 1_000_000 + tolUs
+					}
 				}
 				add(&cl, rc.t0, hi)
 			} else if rc.op.End == other {
 				// the peer's close request travels over the network; lost if the network is dead
 				// (or, on UDP, if the peer's server mux closed its socket before)
-				if done && !netDead(t1) && !(w.sc.Transport == "udp" && w.muxClosedBefore(other, rc.t0)) {
-					hi = t1 + tolUs
+				if done && !netDead(t1) && (spec || (!(w.sc.Transport == "udp" && w.muxClosedBefore(other, rc.t0)) && !w.muxClosedBefore(end, t1))) {
+					// this end answers the close request and then runs its own closeWithError, whose close request may
+					// not get out any more (the peer is gone): up to one full 1 s poll before closedChan is closed
+					hi = t1 + 1_000_000 + tolUs
 				}
 				add(&cl, rc.t0, hi)
 				add(&er, rc.t0, -1)
@@ -564,8 +753,9 @@ func (w *world) closedWindow(end string, sess int, get func(i int) (bool, int64,
 				}
 				add(&cl, rc.t0, hi)
 			} else {
-				if done && !netDead(t1) && !(w.sc.Transport == "udp" && rc.op.Kind == "SMux") {
-					hi = t1 + tolUs
+				if done && !netDead(t1) && (spec || !(w.sc.Transport == "udp" && rc.op.Kind == "SMux")) {
+					// sessions of the underlay are closed one after the other, up to 1 s each
+					hi = t1 + int64(w.sc.NSess)*1_000_000 + tolUs
 				}
 				add(&cl, rc.t0, hi)
 				// the reply to the peer's close request can fail on a connection the peer already closed: inputErr
@@ -575,7 +765,7 @@ func (w *world) closedWindow(end string, sess int, get func(i int) (bool, int64,
 	}
 	if w.resetAt >= 0 {
 		// underlay failure: the event loop fails, the underlay closes every session
-		add(&cl, w.resetAt, w.resetAt+2_000_000)
+		add(&cl, w.resetAt, w.resetAt+int64(w.sc.NSess+1)*1_000_000)
 	}
 	if w.holeAt >= 0 && w.sc.Transport == "udp" {
 		// black hole: idle-session timeout checked when the event loop wakes up, or retransmission budget
@@ -608,16 +798,20 @@ func (rn *runner) emit(w *world, sc *Scenario, get func(i int) (bool, int64, str
 	// bytes written towards each (end,sess): list of (t_issue, t_ret, n)
 	type wr struct{ t0, t1 int64; n int }
 	written := map[string][]wr{}
+	maybe := map[string][]wr{}
 	for i, rc := range w.recs {
 		if rc.op.Kind == "Write" {
 			done, t1, class, n, _ := get(i)
+			to := "s"
+			if rc.op.End == "s" {
+				to = "c"
+			}
+			k := fmt.Sprintf("%s%d", to, rc.op.Sess)
 			if done && class == "OK" && n > 0 {
-				to := "s"
-				if rc.op.End == "s" {
-					to = "c"
-				}
-				k := fmt.Sprintf("%s%d", to, rc.op.Sess)
 				written[k] = append(written[k], wr{rc.t0, t1, n})
+			} else if rc.seqI > 0 && rc.op.Arg > 0 {
+				// a Write is not atomic: any prefix of a Write that is still running (or that failed) may arrive
+				maybe[k] = append(maybe[k], wr{rc.t0, t1, rc.op.Arg})
 			}
 		}
 	}
@@ -641,7 +835,7 @@ func (rn *runner) emit(w *world, sc *Scenario, get func(i int) (bool, int64, str
 			// environment only
 		default:
 			evs = append(evs, ev{rc.seqI, fmt.Sprintf("I %s %d %d %s %d", op.End, op.Sess, i, op.Kind, rc.t0), "-"})
-			cl, er := w.closedWindow(op.End, op.Sess, get3)
+			cl, er := w.closedWindow(op.End, op.Sess, get3, false)
 			facts := ""
 			switch op.Kind {
 			case "Read":
@@ -670,6 +864,16 @@ func (rn *runner) emit(w *world, sc *Scenario, get func(i int) (bool, int64, str
 				}
 				if dataAt >= 0 && ((w.holeAt >= 0 && dataAt >= w.holeAt) || (w.resetAt >= 0 && dataAt >= w.resetAt) || sc.Stall || (cl.lo >= 0 && dataAt >= cl.lo-tolUs)) {
 					dataAt = -2 // written but possibly never delivered: unknown
+				}
+				if dataAt != -2 {
+					// a prefix of a Write that is still running (or that failed) may have arrived earlier than
+					// the first byte that is certainly available
+					for _, x := range maybe[k] {
+						if (x.t0 <= t1 || !done) && (dataAt == -1 || x.t0 < dataAt) {
+							dataAt = -2
+							break
+						}
+					}
 				}
 				facts = fmt.Sprintf("%d %d %d %d %d", dataAt, cl.lo, cl.hi, er.lo, er.hi)
 			case "Write", "Flood":
@@ -703,7 +907,20 @@ func (rn *runner) emit(w *world, sc *Scenario, get func(i int) (bool, int64, str
 				if sc.Stall && op.Sess == 0 && op.Kind == "Close" && op.End == "c" {
 					st = 1
 				}
-				facts = fmt.Sprintf("%d %d", first, st)
+				rearm := 0
+				if !done || t1-rc.t0 > 3_000_000 {
+					dur := int64(-1)
+					if done {
+						dur = t1 - rc.t0
+					}
+					w.dumpMu.Lock()
+					dump := rc.dump
+					w.dumpMu.Unlock()
+					if _, ra := blockedCloseCause(op.Kind, dump, dur); ra {
+						rearm = 1
+					}
+				}
+				facts = fmt.Sprintf("%d %d %d", first, st, rearm)
 			}
 			t1x := t1
 			if !done {
@@ -761,22 +978,22 @@ func (rn *runner) oracle(w *world, sc *Scenario, get func(i int) (bool, int64, s
 		where := fmt.Sprintf("%s/%s", sc.Transport, sc.Kind)
 		switch op.Kind {
 		case "Close", "CMux", "SMux":
-			lim := int64(3_000_000)
+			// closing an underlay closes its sessions one after the other, and a session whose close request cannot be
+			// transmitted any more uses its whole 1 s poll: the bound the code can give grows with the session count
+			lim := int64(3_000_000) + int64(sc.NSess)*1_000_000
 			if !done || t1-rc.t0 > lim {
-				ctx := "idle"
-				if sc.Stall {
-					ctx = "peer-not-reading"
-				} else if w.holeAt >= 0 {
-					ctx = "udp-black-hole"
-				} else if w.resetAt >= 0 {
-					ctx = "tcp-reset"
-				}
+				dur := int64(-1)
 				took := "never (until the horizon)"
 				if done {
-					took = fmt.Sprintf("%d ms", (t1-rc.t0)/1000)
+					dur = t1 - rc.t0
+					took = fmt.Sprintf("%d ms", dur/1000)
 				}
-				rn.fail(fmt.Sprintf("close-blocked-%s-%s-%s", strings.ToLower(op.Kind), sc.Transport, ctx),
-					fmt.Sprintf("%s at end %s returned after %s (bound 3 s) [%s]", op.Kind, op.End, took, where), sc, map[string]interface{}{"op": op})
+				w.dumpMu.Lock()
+				dump := rc.dump
+				w.dumpMu.Unlock()
+				cause, _ := blockedCloseCause(op.Kind, dump, dur)
+				rn.fail(fmt.Sprintf("close-blocked-%s-%s", cause, sc.Transport),
+					fmt.Sprintf("%s at end %s returned after %s (bound 3 s); where: %s [%s]", op.Kind, op.End, took, cause, where), sc, map[string]interface{}{"op": op})
 			}
 			if done && class != "OK" {
 				rn.fail("close-returned-error", fmt.Sprintf("%s returned %s", op.Kind, class), sc, map[string]interface{}{"op": op})
@@ -807,9 +1024,11 @@ func (rn *runner) oracle(w *world, sc *Scenario, get func(i int) (bool, int64, s
 				}
 			}
 			// (b) close unblocks: local close completed => call returns; remote close => bounded
-			cl, _ := w.closedWindow(op.End, op.Sess, get)
+			cl, _ := w.closedWindow(op.End, op.Sess, get, true)
 			if cl.hi >= 0 {
-				lim := maxI(cl.hi, rc.t0) + 1_000_000
+				// a close that reaches this end through the underlay (peer's mux close, connection failure) closes the
+				// sessions of the underlay one after the other, up to 1 s each
+				lim := maxI(cl.hi, rc.t0) + 1_000_000*int64(sc.NSess)
 				if !done || t1 > lim {
 					by := w.closeCause(op.End, op.Sess)
 					rn.fail(fmt.Sprintf("%s-not-unblocked-by-%s-%s", strings.ToLower(op.Kind), by, sc.Transport),
@@ -928,7 +1147,7 @@ func (rn *runner) deadlineSig(w *world, rc *rec, d int64) string {
 
 // ---------------------------------------------------------------------------------------------- generation
 
-func corpus() []*Scenario {
+func corpus(thorough bool) []*Scenario {
 	var out []*Scenario
 	for _, tp := range []string{"tcp", "udp"} {
 		for _, end := range []string{"s", "c"} {
@@ -964,6 +1183,15 @@ func corpus() []*Scenario {
 				{0, "s", "R", 0, "Read", 0, 0}, {0, "c", "C", idle, "Close", 0, 0}, {0, "c", "C", idle + 1500, "Close", 0, 0}}})
 		}
 	}
+	// the public API: apis/client Stop and apis/server Stop with blocked calls at both ends, repeated Stop
+	for _, tp := range []string{"tcp", "udp"} {
+		for _, mk := range []string{"CMux", "SMux"} {
+			out = append(out, &Scenario{Transport: tp, Apis: true, Kind: "apis-stop-" + map[string]string{"CMux": "client", "SMux": "server"}[mk], NSess: 2, HorizonMs: 8000, Ops: []Op{
+				{0, "c", "R", 0, "Read", 0, 0}, {0, "s", "R", 0, "Read", 0, 0}, {1, "c", "R", 0, "Read", 0, 0}, {1, "s", "R", 0, "Read", 0, 0},
+				{1, "c", "W", 200, "Write", 3000, 0},
+				{0, "x", "C", 500, mk, 0, 0}, {0, "x", "C", 600, mk, 0, 0}}})
+		}
+	}
 	// abrupt loss of the network
 	out = append(out, &Scenario{Transport: "tcp", Kind: "tcp-reset-blocked-reads", NSess: 2, HorizonMs: 8000, Ops: []Op{
 		{0, "c", "R", 0, "Read", 0, 0}, {0, "s", "R", 0, "Read", 0, 0}, {1, "s", "R", 0, "Read", 0, 0},
@@ -978,11 +1206,13 @@ func corpus() []*Scenario {
 		{Sess: 0, End: "c", Role: "W", At: 0, Kind: "Flood", Arg: 6000}, {Sess: 0, End: "x", Role: "C", At: 4000, Kind: "CMux"}}})
 	out = append(out, &Scenario{Transport: "tcp", Kind: "stall-remote-close", NSess: 1, Cap: 4096, Stall: true, HorizonMs: 9000, Ops: []Op{
 		{Sess: 0, End: "c", Role: "W", At: 0, Kind: "Flood", Arg: 6000}, {Sess: 0, End: "s", Role: "C", At: 4000, Kind: "Close"}}})
-	out = append(out, &Scenario{Transport: "udp", Kind: "stall-close", NSess: 1, Stall: true, FloodDLms: 300, HorizonMs: 40000, Ops: []Op{
-		{Sess: 0, End: "c", Role: "W", At: 0, Kind: "Flood", Arg: 14000}, {Sess: 0, End: "c", Role: "C", At: 30000, Kind: "Close"}}})
-	out = append(out, &Scenario{Transport: "udp", Kind: "stall-wd-then-flood", NSess: 1, Stall: true, HorizonMs: 40000, Ops: []Op{
+	if thorough {
+		out = append(out, &Scenario{Transport: "udp", Kind: "stall-close", NSess: 1, Stall: true, FloodDLms: 300, HorizonMs: 40000, Ops: []Op{
+			{Sess: 0, End: "c", Role: "W", At: 0, Kind: "Flood", Arg: 14000}, {Sess: 0, End: "c", Role: "C", At: 30000, Kind: "Close"}}})
+	}
+	out = append(out, &Scenario{Transport: "udp", Kind: "stall-wd-then-flood", NSess: 1, Stall: true, HorizonMs: 13000, Ops: []Op{
 		{Sess: 0, End: "c", Role: "W", At: 0, Kind: "SetWD", Arg: 300}, {Sess: 0, End: "c", Role: "W", At: 10, Kind: "Write", Arg: 16},
-		{Sess: 0, End: "c", Role: "W", At: 20, Kind: "Flood", Arg: 14000}, {Sess: 0, End: "c", Role: "C", At: 30000, Kind: "Close"}}})
+		{Sess: 0, End: "c", Role: "W", At: 20, Kind: "Flood", Arg: 14000}, {Sess: 0, End: "c", Role: "C", At: 9000, Kind: "Close"}}})
 	for i, s := range out {
 		s.ID = i + 1
 	}
@@ -1082,7 +1312,7 @@ func main() {
 	time.Sleep(10 * time.Millisecond)
 	rn.baseline = mieruGoroutines(nil)
 	only := os.Getenv("C15_ONLY")
-	budget := 30 * time.Second
+	budget := 40 * time.Second
 	nrand, nlong := 40, 4
 	if r.Thorough() {
 		budget = 8 * time.Minute
@@ -1090,17 +1320,19 @@ func main() {
 	}
 	wall0 := wallNow()
 	id := 0
-	for _, sc := range corpus() {
+	for _, sc := range corpus(r.Thorough()) {
 		id = sc.ID
 		if only != "" && !strings.Contains(sc.Kind, only) {
 			continue
 		}
+		wa := wallNow()
 		rn.run(sc)
+		r.Rep.Distribution["wallms:"+sc.Transport+"/"+sc.Kind] += int((wallNow() - wa) / 1_000_000)
 		r.Distinct(sc.Transport + "/" + sc.Kind)
 	}
 	if only == "" {
 		for i := 0; i < nrand+nlong; i++ {
-			if wallNow()-wall0 > budget.Nanoseconds() {
+			if wallNow()-wall0 > budget.Nanoseconds() && i >= 12 {
 				r.Count("budget-exhausted")
 				break
 			}
